@@ -47,6 +47,8 @@ MUTANTS = [
     {"id": "c14_wall_clock_date_branch", "prop": "C14", "needs": "a process living at another date (simulated clock behind datetime.now())",
      "edits": [(P, "class Parser:\n", "from datetime import datetime\n\n\nclass Parser:\n"),
                (P, RUN_HEAD, "        if datetime.now().year > 2030:\n            group_by_type = False\n" + RUN_HEAD)]},
+    {"id": "c14_alloc_failure_fallback_sticks", "prop": "C14", "needs": "a MemoryError / RecursionError inside run() (injected at a line of library code), then another run() on the same object",
+     "edits": [(P, RUN_HEAD, "        try:\n            self.tables = self.parse_data()\n        except (MemoryError, RecursionError):\n            self.normalize_names = False\n" + RUN_HEAD)]},
     {"id": "c14_memo_last_result", "prop": "C14", "needs": "second run() with different arguments",
      "edits": [(P, RUN_HEAD, "        if getattr(self, '_memo', None) is not None:\n            return self._memo\n" + RUN_HEAD),
                (P, RUN_TAIL, "        if json_dump:\n            self.tables = json.dumps(self.tables)\n        self._memo = self.tables\n        return self.tables\n")]},
